@@ -66,7 +66,7 @@ def run(F, R, tier):
     R.inst("R16.0", "entries", len(mono["entries"]) >= ENTRY_FLOOR, got=[e["name"] for e in mono["entries"]], expect=">= %d harness entries" % ENTRY_FLOOR)
     R.inst("R16.0", "unresolved-calls", len(mono["unresolved"]) == 0, got=mono["unresolved"][:5],
            detail="every call in a reachable instance must resolve to an instance (otherwise reachability is incomplete)")
-    P = M.Program(mono).run()
+    P = M.load_program(F)
     R.inst("R16.0", "functions-analysed", len(P.fns) >= FN_FLOOR, got=len(P.fns), expect=">= %d" % FN_FLOOR, nontrivial=False)
     must = ["duke::class_reader::read", "duke::class_reader::read_code", "duke::simple_class_writer::write_code", "quill::tiny_v2::read",
             "quill::tiny_v2_diff::read", "quill::enigma_file::read_into", "duke::tree::descriptor::read_field_type"]
